@@ -1405,7 +1405,19 @@ pub fn run_main_with_config(
   fuel: u64,
   config: Config,
 ) -> Outcome {
-  with_big_stack(move || {
+  with_big_stack(move || run_main_on_this_thread(heap, modules, entry, fuel, config))
+}
+
+/// Same, without switching to the big interpreter stack: only for programs whose call depth is
+/// known to be tiny (set `config.max_call_depth` accordingly); avoids one thread spawn per run.
+pub fn run_main_on_this_thread(
+  heap: &Heap,
+  modules: &HashMap<ModuleReference, Module<T>>,
+  entry: ModuleReference,
+  fuel: u64,
+  config: Config,
+) -> Outcome {
+  {
     let mut interp = Interp::new(heap, modules, fuel).with_config(config);
     let has_entry = interp.classes.get(&(entry, PStr::MAIN_TYPE)).is_some_and(|info| {
       info.functions.get(&PStr::MAIN_FN).is_some_and(|def| {
@@ -1422,7 +1434,7 @@ pub fn run_main_with_config(
       }
     };
     Outcome { lines: interp.take_lines(), ending }
-  })
+  }
 }
 
 // ------------------------------------------------------------------------------------------------
